@@ -140,3 +140,34 @@ func firstNegative(a []int) int {
 	}
 	return -1
 }
+
+// ---- captured locals: only this function and its own function literals can reach them
+type hook func()
+
+var sink func()
+
+// the callee cannot name v or r: both keep what this function stored
+func capturedSurvives(f hook) (r int) {
+	v := 7
+	defer func() { r = v }()
+	f()
+	return 0
+}
+
+// once the literal is stored where others can find it, the callee may run it
+func capturedEscapes(f hook) int {
+	v := 7
+	sink = func() { v = 8 }
+	f()
+	return v
+}
+
+// a literal run inside a loop may change the captured local
+func capturedInLoop(n int) int {
+	v := 0
+	inc := func() { v++ }
+	for i := 0; i < n; i++ {
+		inc()
+	}
+	return v
+}
